@@ -27,6 +27,16 @@ pub mod publication {
 pub mod provisioning { pub struct Message(pub u8); }
 impl Error { pub fn custom<T>(_s: T) -> Error { unimplemented!() } }
 impl PublicKey { pub fn key_identifier(&self) -> KeyIdentifier { unimplemented!() } }
+pub struct ChildState(pub u8);
+pub struct ChildDetails { pub state: ChildState }
+pub struct UpdateChildRequest(pub u8);
+impl ChildState { pub fn is_suspended(&self) -> bool { unimplemented!() } }
+impl UpdateChildRequest { pub fn unsuspend() -> Self { unimplemented!() } }
+impl CertAuth {
+    pub fn get_child(&self, _c: &ChildHandle) -> KrillResult<&ChildDetails> { unimplemented!() }
+    pub fn handle(&self) -> &CaHandle { unimplemented!() }
+}
+impl CaHandle { pub fn as_str(&self) -> &str { unimplemented!() } }
 '''
 
 SPEC = r'''
@@ -34,6 +44,24 @@ SPEC = r'''
 #[verifier::external_type_specification] #[verifier::external_body] pub struct ExMessage(publication::Message);
 #[verifier::external_type_specification] #[verifier::external_body] pub struct ExPMessage(provisioning::Message);
 #[verifier::external_type_specification] pub struct ExReply(publication::Reply);
+#[verifier::external_type_specification] #[verifier::external_body] pub struct ExChildState(ChildState);
+#[verifier::external_type_specification] pub struct ExChildDetails(ChildDetails);
+#[verifier::external_type_specification] #[verifier::external_body] pub struct ExUpdateChildRequest(UpdateChildRequest);
+pub assume_specification [ChildState::is_suspended] (s: &ChildState) -> (r: bool);
+pub assume_specification [UpdateChildRequest::unsuspend] () -> (r: UpdateChildRequest);
+pub uninterp spec fn ca_has_child(c: CertAuth, child: ChildHandle) -> bool;
+pub uninterp spec fn handle_text(h: CaHandle) -> Seq<char>;
+/// ASSUMED: CertAuth::get_child succeeds exactly for a child the CA has (verified in units c05_child / c12_rfc6492)
+pub assume_specification<'a> [CertAuth::get_child] (c: &'a CertAuth, child: &ChildHandle) -> (r: KrillResult<&'a ChildDetails>) ensures (r is Ok) == ca_has_child(*c, *child);
+pub assume_specification [CertAuth::handle] (c: &CertAuth) -> (r: &CaHandle);
+pub assume_specification [CaHandle::as_str] (h: &CaHandle) -> (r: &str) ensures r@ == handle_text(*h);
+/// this CA instance was fetched from the store under this handle DURING this request (established only by get_ca)
+pub uninterp spec fn looked_up(h: CaHandle, c: CertAuth) -> bool;
+/// a status record is written for a child only after the CA was asked and has this child (the local request path runs no CMS
+/// validation, so this look-up is what refuses a child that was removed); the trust anchor keeps no suspension state and is exempt
+pub open spec fn may_record_child(ca: CaHandle, child: ChildHandle) -> bool {
+    handle_text(ca) == TA_NAME@ || exists |c: CertAuth| #[trigger] looked_up(ca, c) && ca_has_child(c, child)
+}
 pub assume_specification [publication::Message::list_query] () -> (m: publication::Message);
 pub assume_specification [publication::Message::delta] (d: PublishDelta) -> (m: publication::Message);
 pub assume_specification<T> [Error::custom::<T>] (s: T) -> (e: Error);
@@ -97,6 +125,7 @@ def build():
     U.struct(ADM, 'ParentServerInfo', derive=[])
     U.enum(ADM, 'ParentCaContact', derive=[])
     U.struct(MGR, 'CaManager', derive=[])
+    U.free(U.const('src/constants.rs', None, 'TA_NAME'))
     U.add(SPEC)
     U.impl('impl ParentCaContact', [U.fn(ADM, 'ParentCaContact', 'parent_server_info', ensures=[('is_the_rfc6492_info', '*r == self->Rfc6492_0')])])
     U.impl('impl CaManager', [
@@ -113,7 +142,8 @@ def build():
                 && (r is Err ==> repo_deltas(final(self).status_store, *ca_handle) == repo_deltas(old(self).status_store, *ca_handle) || io_failed(final(self).status_store))'''),
         ]),
         # ---- parents ----
-        U.fn(MGR, 'CaManager', 'get_ca', external_body=True),
+        U.fn(MGR, 'CaManager', 'get_ca', external_body=True, ensures=[('fetched_during_this_request', 'r is Ok ==> looked_up(*handle, *r->Ok_0)')]),
+        U.fn(MGR, 'CaManager', 'ca_child_update', external_body=True),
         U.fn(MGR, 'CaManager', 'send_revoke_requests_rfc6492', external_body=True),
         U.fn(MGR, 'CaManager', 'get_entitlements_rfc6492', external_body=True),
         U.fn(MGR, 'CaManager', 'send_revoke_requests', mut_self=True, ensures=[
@@ -139,10 +169,16 @@ def build():
                           && (errors0@.len() > 0 ==> r is Err && parent_shown(final(self).status_store, *ca_handle, *parent) is Failed)'''),
                       ('entitlements_kept', 'parent_entitlements(final(self).status_store, *ca_handle, *parent) == parent_entitlements(old(self).status_store, *ca_handle, *parent)'),
                   ]),
+        # the first statement of rfc6492_process_request (lifted verbatim, R17s): whoever gets past it is a child this CA has
+        U.stmt_fn(MGR, 'CaManager', 'rfc6492_process_request', 'if ca_handle.as_str() != TA_NAME', 'vx_check_child_first',
+                  '(&self, ca_handle: &CaHandle, child_handle: ChildHandle, actor: &Actor, krill: &KrillRuntime) -> (r: KrillResult<()>)',
+                  tail='Ok(())',
+                  ensures=[('a_request_of_an_unknown_child_goes_no_further', 'r is Ok ==> may_record_child(*ca_handle, child_handle)')]),
         # the statement of rfc6492_process_request that records the outcome of a child's request (lifted verbatim, R17s)
         U.stmt_fn(MGR, 'CaManager', 'rfc6492_process_request', 'match &res_msg', 'vx_record_child_outcome',
                   '(&mut self, ca_handle: &CaHandle, child_handle: ChildHandle, user_agent: Option<String>, res_msg: KrillResult<provisioning::Message>) -> (r: KrillResult<provisioning::Message>)',
                   tail='res_msg',
+                  requires=[('only_for_a_child_the_ca_has', 'may_record_child(*ca_handle, child_handle)')],
                   ensures=[
                       ('outcome_of_this_request_recorded_for_the_sending_child', '''(res_msg is Ok ==> child_shown(final(self).status_store, *ca_handle, child_handle) is Succeeded)
                           && (res_msg is Err ==> child_shown(final(self).status_store, *ca_handle, child_handle) == Shown::Failed(error_response_of(res_msg->Err_0)))'''),
